@@ -21,18 +21,22 @@ func init() { register("C18", "exploration", checkC18) }
 
 // A history is a pure function of its seed: it builds fresh chain instances, drives them and returns
 // everything observable (responses, errors, events and validator updates in order, store digests).
+// Replicas with an odd index execute every transaction (and every validator-set block end) first on a throw-away
+// branch, as CheckTx / simulation / an aborted block execution would; even ones do not. The committed history is the
+// same, so everything observable must be the same: nothing may depend on prior process history.
 type c18History struct {
 	name string
-	f    func(seed uint64, steps int) (transcript []string, orderSensitive int)
+	f    func(seed uint64, steps int, spec bool) (transcript []string, orderSensitive int)
 }
 
 func scratchRun() *mon.Run { return mon.NewRun("C18-scratch", "quick", 0, "exploration") }
 
-func histTwoChain(seed uint64, steps int) ([]string, int) {
+func histTwoChain(seed uint64, steps int, spec bool) ([]string, int) {
 	rr := mon.NewRand(seed)
 	t1, t2 := &sim.Transcript{}, &sim.Transcript{}
 	w := &c08World{run: scratchRun(), rng: rr, tc: newTwoChain(4*time.Second, L2EnvOpts{}), denoms: []string{"uinit", "uusdc"}, feat: map[string]int{}, initial: map[string]*big.Int{"uinit": new(big.Int), "uusdc": new(big.Int)}}
 	w.tc.L1.L1.T, w.tc.L2.L2.T = t1, t2
+	w.tc.L1.L1.Speculate, w.tc.L2.L2.Speculate = spec, spec
 	multi := 0
 	for s := 0; s < steps; s++ {
 		switch x := rr.Intn(100); {
@@ -72,13 +76,15 @@ func histTwoChain(seed uint64, steps int) ([]string, int) {
 	return out, multi + 2
 }
 
-func histValidators(seed uint64, steps int) ([]string, int) {
+func histValidators(seed uint64, steps int, spec bool) ([]string, int) {
 	rng := mon.NewRand(seed)
 	t := &sim.Transcript{}
 	gen := []ValKey{NewValKey(1), NewValKey(2), NewValKey(3)}
 	w := newValWorld(scratchRun(), "aux", gen, 30, 3)
 	l2 := w.e.L2
 	l2.T = t
+	l2.Speculate = spec
+	w.specBlocks = spec
 	t.Add("GENESIS updates=%s", sim.FormatUpdates(l2.LastUpdates))
 	_, _ = l2.BeginBlock(1e9)
 	sensitive := 0
@@ -124,6 +130,17 @@ func histValidators(seed uint64, steps int) ([]string, int) {
 			}
 			bonded = map[int]bool{}
 			sensitive++
+		case x < 66:
+			// several plans whose heights have already passed are registered at once (e.g. by an upgrade handler);
+			// they must never fire, in whatever order a map holds them
+			cur := uint64(l2.Ctx.BlockHeight())
+			for k := uint64(0); k < 4 && cur > k+1; k++ {
+				ov := NewValKey(700 + int(k))
+				bz, _ := l2.Enc.Codec.MarshalInterfaceJSON(ov.Pub)
+				err := l2.K.RegisterExecutorChangePlan(1000+k, cur-1-k, ov.Operator.Val(), "overdue", string(bz), "i", []string{sim.NewAccount(fmt.Sprintf("overdue%d", k)).String()})
+				t.Add("OVERDUE PLAN registered for %d err=%v", cur-1-k, err)
+			}
+			sensitive++
 		case x < 70:
 			mx := uint32(5 + rng.Intn(30))
 			w.setParams(func(p *opchildtypes.Params) { p.MaxValidators = mx; p.HistoricalEntries = uint32(rng.Intn(4)) }, "params")
@@ -148,11 +165,12 @@ func histValidators(seed uint64, steps int) ([]string, int) {
 	return t.Lines, sensitive
 }
 
-func histOracle(seed uint64, steps int) ([]string, int) {
+func histOracle(seed uint64, steps int, spec bool) ([]string, int) {
 	rng := mon.NewRand(seed)
 	t := &sim.Transcript{}
 	o := newOracleEnv([]int64{10, 9, 8, 7, 6, 5, 4}, []string{"BTC/USD", "ETH/USD", "ATOM/USD", "SOL/USD", "INIT/USD", "TIA/USD"})
 	o.L2.T = t
+	o.L2.Speculate = spec
 	c := &c15{run: scratchRun()}
 	ts := int64(1_700_000_000_000_000_000)
 	var log []string
@@ -188,11 +206,12 @@ func histOracle(seed uint64, steps int) ([]string, int) {
 	return t.Lines, sensitive
 }
 
-func histL1World(seed uint64, steps int) ([]string, int) {
+func histL1World(seed uint64, steps int, spec bool) ([]string, int) {
 	t := &sim.Transcript{}
 	cfg := WorldCfg{Bridges: 4, Steps: steps, Periods: []time.Duration{time.Second, 3 * time.Second, 2 * time.Second, 10 * time.Second}}
 	w := newL1World(scratchRun(), mon.NewRand(seed), MonSet{}, cfg)
 	w.env.L1.T = t
+	w.env.L1.Speculate = spec
 	w.Run()
 	t.Add("EXPORT %s", l1ExportJSON(w.env.L1))
 	t.Add("DIGEST %s", sim.Digest(w.env.L1.Dump()))
@@ -207,11 +226,12 @@ func histL1World(seed uint64, steps int) ([]string, int) {
 
 // histPermHook: bridges with permissioned-channel metadata over channels that are missing / in use / taken, so that
 // several listed channels are unusable for different reasons and error identity depends on the order of checks.
-func histPermHook(seed uint64, steps int) ([]string, int) {
+func histPermHook(seed uint64, steps int, spec bool) ([]string, int) {
 	r := mon.NewRand(seed)
 	t := &sim.Transcript{}
 	w := &c19World{run: scratchRun(), rng: r, env: newL1Env(0, nil), metadata: map[uint64][]byte{}, feat: map[string]int{}}
 	w.env.L1.T = t
+	w.env.L1.Speculate = spec
 	for i := 0; i < 5; i++ {
 		w.channels = append(w.channels, ophosthook.PortChannelID{PortID: "transfer", ChannelID: fmt.Sprintf("channel-%d", i)})
 	}
@@ -261,7 +281,7 @@ func checkC18(run *mon.Run, rng *mon.Rand, thorough bool) {
 			sens := make([]int, N)
 			// first half sequentially
 			for i := 0; i < N/2; i++ {
-				transcripts[i], sens[i] = h.f(seed, steps)
+				transcripts[i], sens[i] = h.f(seed, steps, i%2 == 1)
 				run.Evaluations++
 			}
 			// second half concurrently
@@ -270,7 +290,7 @@ func checkC18(run *mon.Run, rng *mon.Rand, thorough bool) {
 				wg.Add(1)
 				go func(i int) {
 					defer wg.Done()
-					transcripts[i], sens[i] = h.f(seed, steps)
+					transcripts[i], sens[i] = h.f(seed, steps, i%2 == 1)
 				}(i)
 			}
 			wg.Wait()
